@@ -618,6 +618,11 @@ func c27RoundTripValue(c *c27Codec, v any, rnd *Rand) string {
 	if last := exts[3][len(exts[3])-1]; last == ' ' || last == '\n' || last == '\t' || last == '\r' {
 		exts[3][len(exts[3])-1] = 'x' // trailing white space is legal for the text codec
 	}
+	// structural closers / separators of the text codecs (a streaming JSON decoder's More() answers
+	// false before '}' and ']'), alone and after legal white space
+	for _, tail := range []string{"}", "]", " }", "\n]", "}{", "]x", ",", ":", "\"", "{", "[", "null"} {
+		exts = append(exts, append(append([]byte(nil), enc...), tail...))
+	}
 	for _, x := range exts {
 		var xerr error
 		al.see(c27Measure(func() { _, xerr = c.dec(x) }), len(x), "ext")
